@@ -34,7 +34,8 @@ def refusals_before_write(F, S):
                     (CLM + "::CompareWaveFormats", "inputs with differing sample formats are refused"),
                     (AR + "ArchiveFile::VerifySortedContainerHasNoDuplicateNames", "duplicate names are refused")):
         inst = "%s::CreateArchive#before-write:%s" % (CLM, q.split("::")[-1])
-        if ("ev", "called", q) in site:
+        from ..rules_valid import validated
+        if validated(F, ca, site, q):
             out.append(ok("R-ORDER", inst, ca.loc(wa[0]["id"]), ca.qn, what + " before the archive file is created", "dominates WriteArchive"))
         else:
             out.append(bad("R-ORDER", inst, ca.loc(wa[0]["id"]), ca.qn, what + " before the archive file is created", "does not dominate WriteArchive"))
